@@ -1274,6 +1274,34 @@ def gen_C19_edges(rng, n=600):
     return "\n".join(L) + "\n"
 
 
+def gen_C19_forest(rng, n=120):
+    """integers handed to the forest entry point (createConstant on integer
+    multi-terminal forests) instead of the terminal class directly: the value
+    must come back unchanged in the table or be rejected with VALUE_OVERFLOW
+    exactly when the generated getIntegerHandle rejects it (narrowing anywhere
+    between the API and the codec shows as a wrong table)"""
+    W = 1 << 30
+    L = ["init", "domain D 2 3",
+         "forest I D set int mt %s" % rng.choice(["fr", "qr"]),
+         "forest J D rel int mt %s" % rng.choice(["fr", "qr", "ir"])]
+    vals = [0, 1, -1, W - 1, W, -W, -W - 1, (1 << 31) - 1, 1 << 31, -(1 << 31), -(1 << 31) - 1,
+            (1 << 32), (1 << 32) + 5, -(1 << 32) - 7, (1 << 40), (1 << 40) + 3, -(1 << 40) + 9,
+            (1 << 33) - 1, (1 << 32) + W - 1, (1 << 32) - W, (1 << 61), -(1 << 61) + 1]
+    for _ in range(n):
+        r = rng.random()
+        if r < 0.3:
+            vals.append(rng.randint(-W - 3, W + 3))
+        elif r < 0.6:
+            vals.append(rng.choice([1, -1]) * ((1 << rng.randint(31, 60)) + rng.randint(-W, W)))
+        else:
+            vals.append(rng.choice([1, -1]) * (1 << rng.randint(28, 33)) + rng.randint(-3, 3))
+    for i, v in enumerate(vals):
+        L.append("const k%d %s %d" % (i, rng.choice(["I", "I", "J"]), v))
+        if rng.random() < 0.7:
+            L.append("release k%d" % i)
+    return "\n".join(L) + "\n"
+
+
 def gen_C18(rng, nops=400):
     """request/recycle histories against bare memory managers"""
     L = ["init"]
